@@ -3038,6 +3038,14 @@ MUTATORS = frozenset("join pop popitem append extend update clear remove insert 
 SAFE_CONTAINER_TESTS = ("dict", "list", "tuple", "str", "set", "frozenset")
 
 
+def _direct_use(stmt, x):
+    """the statement hands the local on as it is: `T = x`, `return x`, or `f(.., x, ..)` called for its effect"""
+    v = stmt.value
+    if isinstance(stmt, (ast.Assign, ast.Return)):
+        return isinstance(v, ast.Name) and v.id == x
+    return isinstance(stmt, ast.Expr) and isinstance(v, ast.Call) and any(isinstance(a, ast.Name) and a.id == x for a in v.args)
+
+
 def strip_annotations(ix):
     """`x: T = v` is `x = v`, `x: T` declares nothing at run time (function bodies; the module level is read through Index.module_globals)"""
     class T(ast.NodeTransformer):
@@ -3266,14 +3274,36 @@ def drop_diagnostics(ix):
                 b = getattr(n, fld, None)
                 if isinstance(b, list):
                     for a_, b_ in zip(b, b[1:]):
-                        if isinstance(a_, ast.Assign) and len(a_.targets) == 1 and isinstance(a_.targets[0], ast.Name) and isinstance(b_, ast.Assign) and isinstance(b_.value, ast.Name) \
-                                and b_.value.id == a_.targets[0].id:
-                            pairs[b_.value.id] = pairs.get(b_.value.id, 0) + 1
+                        if isinstance(a_, ast.Assign) and len(a_.targets) == 1 and isinstance(a_.targets[0], ast.Name) and isinstance(b_, (ast.Assign, ast.Return, ast.Expr)) and b_.value is not None \
+                                and sum(1 for y in ast.walk(b_) if isinstance(y, ast.Name) and y.id == a_.targets[0].id) == 1 \
+                                and _direct_use(b_, a_.targets[0].id):
+                            pairs[a_.targets[0].id] = pairs.get(a_.targets[0].id, 0) + 1
+        # loads of a name inside a loop (or comprehension) that binds that very name belong to that binding, not to a temporary of the same name
+        def rebound_loads(node, bound, acc):
+            if isinstance(node, ast.For):
+                b2 = bound | {x_.id for x_ in ast.walk(node.target) if isinstance(x_, ast.Name)}
+                for c_ in node.body:
+                    rebound_loads(c_, b2, acc)
+                for c_ in node.orelse:
+                    rebound_loads(c_, bound, acc)
+                rebound_loads(node.iter, bound, acc)
+                return
+            if isinstance(node, ast.Name) and isinstance(node.ctx, ast.Load) and node.id in bound:
+                acc[node.id] = acc.get(node.id, 0) + 1
+            for c_ in ast.iter_child_nodes(node):
+                rebound_loads(c_, bound, acc)
+        own = {}
+        rebound_loads(fn, set(), own)
+        raw = dict(used)
+        for k_, c_ in own.items():
+            # only names that are temporaries elsewhere: the loop-bound uses are not counted against them
+            if used.get(k_):
+                used[k_] -= c_
         for n in ast.walk(fn):
-            if isinstance(n, ast.ExceptHandler) and n.name and not used.get(n.name):
+            if isinstance(n, ast.ExceptHandler) and n.name and not raw.get(n.name):
                 n.name = None
             # a counter that only the records read: `for i, x in enumerate(X)` is `for x in X`
-            if isinstance(n, ast.For) and isinstance(n.target, ast.Tuple) and len(n.target.elts) == 2 and isinstance(n.target.elts[0], ast.Name) and not used.get(n.target.elts[0].id) \
+            if isinstance(n, ast.For) and isinstance(n.target, ast.Tuple) and len(n.target.elts) == 2 and isinstance(n.target.elts[0], ast.Name) and not raw.get(n.target.elts[0].id) \
                     and isinstance(n.iter, ast.Call) and u(n.iter.func) == "enumerate" and len(n.iter.args) == 1 and not n.iter.keywords:
                 n.target, n.iter = n.target.elts[1], n.iter.args[0]
             for fld in ("body", "orelse", "finalbody"):
@@ -3286,10 +3316,22 @@ def drop_diagnostics(ix):
                     s_ = b[i]
                     if isinstance(s_, ast.Assign) and len(s_.targets) == 1 and isinstance(s_.targets[0], ast.Name):
                         x = s_.targets[0].id
-                        if x in fl and not used.get(x):
+                        if x in fl and not raw.get(x):
                             i += 1
                             continue
                         nxt = b[i + 1] if i + 1 < len(b) else None
+                        if x in temps and used.get(x) == pairs.get(x) and isinstance(nxt, (ast.Return, ast.Expr, ast.Assign)) and nxt.value is not None \
+                                and sum(1 for y in ast.walk(nxt) if isinstance(y, ast.Name) and y.id == x) == 1 \
+                                and _direct_use(nxt, x):
+                            val_ = s_.value
+
+                            class Sub(ast.NodeTransformer):
+                                def visit_Name(self, n_):
+                                    return val_ if (n_.id == x and isinstance(n_.ctx, ast.Load)) else n_
+                            nxt.value = Sub().visit(nxt.value)
+                            out.append(nxt)
+                            i += 2
+                            continue
                         if x in temps and used.get(x) == pairs.get(x) and isinstance(nxt, ast.Assign) and isinstance(nxt.value, ast.Name) and nxt.value.id == x and len(nxt.targets) == 1 \
                                 and not any(isinstance(y, (ast.Call, ast.Name)) and not isinstance(y.ctx if isinstance(y, ast.Name) else ast.Load(), ast.Store) and isinstance(y, ast.Call) for y in ast.walk(nxt.targets[0])):
                             out.append(ast.copy_location(ast.Assign(targets=nxt.targets, value=s_.value), nxt))
